@@ -51,6 +51,8 @@ def pool(M, ctx):
            ("two_solids", M.distort(M.two_solids(), rng, **mild))]
     # the identities do not know units: a physically tiny copy (element distances ~1e-6) is in the core pool
     out.append(("cube|s1e-05", M.scale(out[2][1], 1e-5)))
+    # the smallest closed surface: every pair of its four elements shares an edge (no vertex-adjacent pair at all)
+    out.append(("tetra_raw", M.distort(M.tetrahedron(), rng, **mild)))
     if not ctx.quick:
         out += [("icosa", M.distort(M.icosahedron(), rng, **mild)), ("voxring", M.voxel_ring()), ("shell", M.refine(M.nested_shell(), 1)),   # (refined: elements not larger than the gap between the two surfaces)
                 ("dented", M.distort(M.dented_block(), rng, **mild)), ("octa_r2", M.distort(M.refine(M.octahedron(), 2), rng, **mild)),
